@@ -19,7 +19,7 @@ def run(ctx):
         ctx.log("tables:", msg)
         ob_failed.append("translator(gen/tables g11): " + msg)
     ok, log, failed = ctx.coq_make(GROUP)
-    c15_files = ("Tables.v", "Timeouts.v", "TimeoutsCheck.v", "TimeoutsProofs.v", "Obligations.v", PROP_FILE)
+    c15_files = ("Tables.v", "Timeouts.v", "TimeoutsCheck.v", "TimeoutsProofs.v", "TimeoutsGeneral.v", "Obligations.v", PROP_FILE)
     failed = [f for f in failed if f in c15_files]
     core_broken = [f for f in failed if f not in (PROP_FILE, "Obligations.v")]
     if "Obligations.v" in failed:
